@@ -1,1 +1,758 @@
-"""Rule checkers over the IR / AST (DESIGN §4)."""
+"""Rule checkers over the IR (DESIGN §4): shape-independent clauses of C03/C04/C05/C18/C19.
+
+Every rule enumerates its instances from the tree, reports `file:line`, and checks an instance floor so that a rule that
+silently matches nothing is ANALYSIS-INCOMPLETE rather than a pass."""
+import re
+from . import front, ir
+from .cfg import FnInfo, regs_of, callee_name, field_of_this
+from .poly import P
+
+CLS = 'NTT_Goldilocks'
+NTT_METHODS = r'^NTT_Goldilocks::(NTT|INTT|NTT_iters|extendPol|reversePermutation|computeR|root|intt_idx|log2)\('
+ALLOC = {'malloc': 'malloc', '_Znam': 'new[]', '_Znwm': 'new'}
+RELEASE = {'free': 'free', '_ZdaPv': 'delete[]', '_ZdlPv': 'delete'}
+PAIR = {'malloc': 'free', 'new[]': 'delete[]', 'new': 'delete'}
+
+_cache = {}
+
+
+def smod(cfg='avx2'):
+    return front.module(cfg, sroa=True)
+
+
+def info(mod, name):
+    k = (id(mod), name)
+    if k not in _cache:
+        _cache[k] = FnInfo(mod.fn(name))
+    return _cache[k]
+
+
+def loc(mod, ins, fname=None):
+    f, l = mod.loc(ins.dbg)
+    if f is None and fname:
+        f, l = mod.fn_loc(fname)
+    return '%s:%s' % (front.rel(f), l)
+
+
+def class_fields(mod):
+    """field index -> member name of NTT_Goldilocks (from the debug info, so that a reordering of members is followed)"""
+    names_by_off = {}
+    cid = None
+    for ref, txt in mod._mdtxt.items():
+        if 'DW_TAG_class_type' in txt and 'name: "%s"' % CLS in txt and 'elements:' in txt:
+            cid = ref
+            break
+    if cid is None:
+        return {}
+    for ref, txt in mod._mdtxt.items():
+        if 'DW_TAG_member' in txt and ('scope: %s,' % cid) in txt:
+            m = re.search(r'name: "(\w+)"', txt)
+            o = re.search(r'offset: (\d+)', txt)
+            if m:
+                names_by_off[int(o.group(1)) // 8 if o else 0] = m.group(1)
+    out = {}
+    ty = ('s', '%class.' + CLS)
+    fs = mod.struct_fields(ty[1])
+    for i in range(len(fs[1])):
+        try:
+            off, ft = ir.field_offset(mod, ty, i)
+        except ir.IRError:
+            break
+        if off in names_by_off:
+            out[i] = names_by_off[off]
+    return out
+
+
+def methods(mod, pat=NTT_METHODS):
+    return mod.find_re(pat)
+
+
+# ------------------------------------------------------------------------------------------------ R-NULL
+def null_beliefs(mod, names):
+    """{function: {param: (why, site)}}: parameters the code itself treats as possibly null"""
+    beliefs = {n: {} for n in names}
+    infos = {n: info(mod, n) for n in names}
+    for n, fi in infos.items():
+        for b in fi.fn.order:
+            for ins in fi.fn.blocks[b]:
+                if ins.op == 'icmp' and ins.x in ('eq', 'ne'):
+                    ops = list(ins.a)
+                    if ('null',) in ops:
+                        o = ops[0] if ops[1] == ('null',) else ops[1]
+                        if o[0] == 'r' and o[1] in fi.params:
+                            beliefs[n].setdefault(o[1], ('compared with NULL', loc(mod, ins, n)))
+    # pointers the public interface allows to be null (property C03/C04: "destination ... or null instead of the source",
+    # scratch buffer defaults to NULL in ntt_goldilocks.hpp): frozen table, one reason per entry
+    API_NULLABLE = {'NTT': {'%dst': 'C03: destination may be null (in place)', '%buffer': 'default argument buffer = NULL'},
+                    'INTT': {'%dst': 'C04: a null destination means in place', '%buffer': 'default argument buffer = NULL'},
+                    'extendPol': {'%buffer': 'default argument buffer = NULL'}}
+    missing = []
+    for n, fi in infos.items():
+        m = re.match(r'NTT_Goldilocks::(\w+)\(', mod.dem[n])
+        for p, why in API_NULLABLE.get(m.group(1) if m else '', {}).items():
+            if p in fi.params:
+                beliefs[n].setdefault(p, (why, '%s:%s' % (front.rel(mod.fn_loc(n)[0]), mod.fn_loc(n)[1])))
+            else:
+                missing.append('%s %s' % (m.group(1), p))
+    beliefs['__missing__'] = missing
+    return beliefs, infos
+
+
+def pure_pointer_flow(fi, reg, src):
+    seen = set()
+    todo = [reg]
+    while todo:
+        r = todo.pop()
+        if r in seen:
+            continue
+        seen.add(r)
+        if r == src:
+            return True
+        d = fi.defs.get(r)
+        if d is None:
+            continue
+        ins = d[1]
+        if ins.op == 'phi':
+            for v, l in ins.a:
+                todo += regs_of(v)
+        elif ins.op in ('bitcast', 'select'):
+            todo += fi.uses(ins)
+    return False
+
+
+def nonnull_analysis(fi, maybe):
+    """forward must-analysis: for every block the set of registers known to be non-null at its entry.
+    `maybe`: parameters believed to be possibly null; every other pointer source is taken as non-null."""
+    fn = fi.fn
+    order = fn.order
+    TOP = None
+    IN = {b: TOP for b in order}
+    IN[order[0]] = frozenset()
+
+    def is_nonnull(v, facts):
+        if v[0] == 'r':
+            if v[1] in facts:
+                return True
+            if v[1] in fi.params:
+                return v[1] not in maybe
+            d = fi.defs.get(v[1])
+            if d is None:
+                return True
+            ins = d[1]
+            if ins.op in ('getelementptr', 'bitcast'):
+                return is_nonnull(ins.a[0], facts)
+            if ins.op in ('phi', 'select'):
+                return False        # only via facts
+            return True             # loads, calls (malloc results are not tested by this code), allocas
+        if v[0] == 'null':
+            return False
+        return True
+
+    def edge_facts(b, succ, facts):
+        t = fi.term[b]
+        out = set(facts)
+        if t is not None and t.op == 'br' and t.a and t.a[0][0] == 'r':
+            d = fi.defs.get(t.a[0][1])
+            if d is not None and d[1].op == 'icmp' and d[1].x in ('eq', 'ne') and ('null',) in d[1].a:
+                o = d[1].a[0] if d[1].a[1] == ('null',) else d[1].a[1]
+                if o[0] == 'r':
+                    nonnull_succ = t.x[1] if d[1].x == 'eq' else t.x[0]
+                    if succ == nonnull_succ and t.x[0] != t.x[1]:
+                        out.add(o[1])
+        return out
+
+    def transfer(b, facts):
+        facts = set(facts)
+        for ins in fn.blocks[b]:
+            if ins.op == 'phi':
+                continue
+            if ins.op == 'select' and ins.dst:
+                if is_nonnull(ins.a[1], facts) and is_nonnull(ins.a[2], facts):
+                    facts.add(ins.dst)
+            elif ins.op in ('getelementptr', 'bitcast') and ins.dst:
+                if is_nonnull(ins.a[0], facts):
+                    facts.add(ins.dst)
+        return facts
+    OUT = {}
+    changed = True
+    it = 0
+    while changed and it < 50:
+        changed = False
+        it += 1
+        for b in order:
+            if b != order[0]:
+                acc = None
+                for p in fi.pred[b]:
+                    if IN[p] is None and p not in OUT:
+                        continue
+                    ef = edge_facts(p, b, OUT.get(p, set()))
+                    # phi results: non-null if the incoming value on this edge is non-null
+                    for ins in fn.blocks[b]:
+                        if ins.op != 'phi':
+                            break
+                        for v, l in ins.a:
+                            if l == p and is_nonnull(v, ef):
+                                ef.add(ins.dst)
+                    acc = set(ef) if acc is None else (acc & ef)
+                newin = frozenset(acc) if acc is not None else None
+                if newin != IN[b]:
+                    IN[b] = newin
+                    changed = True
+            if IN[b] is not None:
+                o = transfer(b, IN[b])
+                if OUT.get(b) != o:
+                    OUT[b] = o
+                    changed = True
+    return IN, is_nonnull
+
+
+def rule_null(rep):
+    mod = smod()
+    names = methods(mod, r'^NTT_Goldilocks::(NTT|INTT|NTT_iters|extendPol|reversePermutation)\(')
+    rep.floor('R-NULL functions', len(names), 5)
+    beliefs, infos = null_beliefs(mod, names)
+    for m_ in beliefs.pop('__missing__', []):
+        rep.incomplete('null:api ' + m_, 'R-NULL', 'src/ntt_goldilocks.hpp', 'nullable interface parameter %s no longer exists under that name' % m_)
+    nb = sum(len(v) for v in beliefs.values())
+    rep.floor('R-NULL beliefs', nb, 6)
+    for n in names:
+        fi = infos[n]
+        maybe = set(beliefs[n])
+        short = mod.dem[n].split('(')[0]
+        if not maybe:
+            continue
+        IN, is_nonnull = nonnull_analysis(fi, maybe)
+        bad = []
+        nder = 0
+        for b in fi.fn.order:
+            if IN[b] is None:
+                continue
+            facts = set(IN[b])
+            for ins in fi.fn.blocks[b]:
+                ptrs = []
+                if ins.op == 'load':
+                    ptrs = [ins.a[0]]
+                elif ins.op == 'store':
+                    ptrs = [ins.a[1]]
+                else:
+                    c = callee_name(ins)
+                    if c and (c.startswith('llvm.memcpy') or c.startswith('llvm.memmove')):
+                        ptrs = [ins.a[1], ins.a[2]]
+                    elif c and c.startswith('llvm.memset'):
+                        ptrs = [ins.a[1]]
+                for pv in ptrs:
+                    if pv[0] != 'r':
+                        continue
+                    roots = [r for r in fi.backward_slice([pv[1]]) if r in maybe and pure_or_gep_flow(fi, pv[1], r)]
+                    if not roots:
+                        continue
+                    nder += 1
+                    if not is_nonnull(pv, facts):
+                        bad.append((ins, roots[0]))
+                # keep facts current inside the block
+                if ins.op == 'select' and ins.dst and is_nonnull(ins.a[1], facts) and is_nonnull(ins.a[2], facts):
+                    facts.add(ins.dst)
+                elif ins.op in ('getelementptr', 'bitcast') and ins.dst and is_nonnull(ins.a[0], facts):
+                    facts.add(ins.dst)
+        for p, (why, site) in beliefs[n].items():
+            tag = 'null:%s %s' % (short, p)
+            mine = [(i, r) for i, r in bad if r == p]
+            if mine:
+                i0 = mine[0][0]
+                rep.refute(tag, 'R-NULL', loc(mod, i0, n), 'parameter %s may be null (%s at %s) but is dereferenced here without a dominating test (%d sites)' % (
+                    p[1:], why, site, len(mine)))
+            else:
+                rep.ok(tag, 'R-NULL', site, 'parameter %s may be null (%s); every dereference is dominated by a test or a non-null reassignment' % (p[1:], why))
+
+
+def pure_or_gep_flow(fi, reg, src):
+    seen = set()
+    todo = [reg]
+    while todo:
+        r = todo.pop()
+        if r in seen:
+            continue
+        seen.add(r)
+        if r == src:
+            return True
+        d = fi.defs.get(r)
+        if d is None:
+            continue
+        ins = d[1]
+        if ins.op == 'phi':
+            for v, l in ins.a:
+                todo += regs_of(v)
+        elif ins.op in ('bitcast', 'select'):
+            todo += fi.uses(ins)
+        elif ins.op == 'getelementptr':
+            todo += regs_of(ins.a[0])
+    return False
+
+
+# ------------------------------------------------------------------------------------------------ R-DEP(s), R-EFFECT
+def rule_dep_s(rep):
+    """the member s (log2 of the object's capacity) may be read outside constructor/destructor/root() only for assertions:
+    the pass schedule must be a function of the call's size and nphase"""
+    mod = smod()
+    fields = class_fields(mod)
+    idx = [i for i, nm in fields.items() if nm == 's']
+    if not idx:
+        rep.incomplete('dep-s', 'R-DEP', 'src/ntt_goldilocks.hpp', 'member s not found in the debug info of the class')
+        return
+    k = idx[0]
+    names = methods(mod, r'^NTT_Goldilocks::(NTT|INTT|NTT_iters|extendPol|reversePermutation|computeR|intt_idx)\(')
+    rep.floor('R-DEP functions', len(names), 6)
+    nreads = 0
+    for n in names:
+        fi = info(mod, n)
+        short = mod.dem[n].split('(')[0]
+        for b in fi.fn.order:
+            for ins in fi.fn.blocks[b]:
+                if ins.op == 'load' and field_of_this(fi, ins.a[0]) == k:
+                    nreads += 1
+                    # all transitive users must be comparisons that only guard an assertion
+                    bad = None
+                    todo = [ins.dst]
+                    seen = set()
+                    while todo and not bad:
+                        r = todo.pop()
+                        if r in seen:
+                            continue
+                        seen.add(r)
+                        for ub, u in fi.users(r):
+                            if u.op in ('zext', 'sext', 'trunc', 'bitcast', 'phi', 'select'):
+                                todo.append(u.dst)
+                            elif u.op == 'icmp':
+                                # must feed only a branch one side of which is an assertion failure
+                                for ub2, u2 in fi.users(u.dst):
+                                    if u2.op != 'br' or not any(is_assert_block(fi, t) for t in u2.x):
+                                        bad = u2
+                            else:
+                                bad = u
+                    tag = 'dep-s:%s@%s' % (short, loc(mod, ins, n))
+                    if bad:
+                        rep.refute(tag, 'R-DEP', loc(mod, bad, n), 'the capacity exponent s flows into `%s` in %s: results would depend on the object, not only on the call arguments' % (
+                            bad.text.strip().split(', !dbg')[0][:90], short))
+                    else:
+                        rep.ok(tag, 'R-DEP', loc(mod, ins, n), 'read of s only guards an assertion')
+    rep.ok('dep-s:census', 'R-DEP', 'src/ntt_goldilocks.cpp',
+           '%d reads of member s in %d transform methods (root(), constructor and destructor excluded)' % (nreads, len(names)))
+
+
+def is_assert_block(fi, b):
+    for ins in fi.fn.blocks.get(b, []):
+        c = callee_name(ins)
+        if c in ('__assert_fail', 'abort', 'exit'):
+            return True
+    return False
+
+
+def field_writes(mod, name, seen=None, depth=0):
+    """{field index: site} written (transitively through calls that receive `this`) by method `name`"""
+    seen = seen if seen is not None else set()
+    if name in seen or depth > 6:
+        return {}
+    seen.add(name)
+    fi = info(mod, name)
+    out = {}
+    this = fi.fn.params[0][1] if fi.fn.params else None
+    for b in fi.fn.order:
+        for ins in fi.fn.blocks[b]:
+            if ins.op == 'store':
+                k = field_of_this(fi, ins.a[1], this)
+                if k is not None:
+                    out.setdefault(k, loc(mod, ins, name))
+            c = callee_name(ins)
+            if c and c in mod.funcs and ins.a[1:] and ins.a[1] == ('r', this) and mod.dem.get(c, '').startswith(CLS + '::'):
+                if re.match(r'^NTT_Goldilocks::~?NTT_Goldilocks\(', mod.dem[c]):
+                    continue
+                for k, v in field_writes(mod, c, seen, depth + 1).items():
+                    out.setdefault(k, v)
+    return out
+
+
+def rule_effect(rep):
+    mod = smod()
+    fields = class_fields(mod)
+    rep.floor('class members resolved', len(fields), 8)
+    allowed = {'r', 'r_', 'rSize'}
+    pub = methods(mod, r'^NTT_Goldilocks::(NTT|INTT|extendPol|NTT_iters|reversePermutation)\(')
+    rep.floor('R-EFFECT methods', len(pub), 5)
+    for n in pub:
+        short = mod.dem[n].split('(')[0]
+        w = field_writes(mod, n)
+        names = {fields.get(k, 'field#%d' % k): site for k, site in w.items()}
+        bad = {k: v for k, v in names.items() if k not in allowed}
+        tag = 'effect:' + short
+        if bad:
+            k0 = sorted(bad)[0]
+            rep.refute(tag, 'R-EFFECT', bad[k0], '%s writes member %s after construction: later calls on the same object could observe it' % (short, sorted(bad)))
+        else:
+            rep.ok(tag, 'R-EFFECT', mod.fn_loc(n)[0] and '%s:%s' % (front.rel(mod.fn_loc(n)[0]), mod.fn_loc(n)[1]),
+                   'writes only %s (the memoised coset tables and their key)' % (sorted(names) or 'no member'))
+
+
+def rule_memo_guard(rep):
+    """a conditional call that refreshes memoised members from a call argument must be guarded by a test that depends on that argument"""
+    mod = smod()
+    pub = methods(mod, r'^NTT_Goldilocks::(NTT|INTT|extendPol)\(')
+    ninst = 0
+    for n in pub:
+        fi = info(mod, n)
+        this = fi.fn.params[0][1]
+        dom = fi.dominators()
+        short = mod.dem[n].split('(')[0]
+        for b in fi.fn.order:
+            for ins in fi.fn.blocks[b]:
+                c = callee_name(ins)
+                if not (c and c in mod.funcs and ins.a[1:] and ins.a[1] == ('r', this) and mod.dem.get(c, '').startswith(CLS + '::')):
+                    continue
+                if c == n or not field_writes(mod, c):
+                    continue
+                argparams = set()
+                for a in ins.a[2:]:
+                    if a[0] == 'r':
+                        argparams |= {r for r in fi.backward_slice([a[1]]) if r in fi.params and r != this}
+                if not argparams:
+                    continue
+                # is the call conditional?  (its block does not post-dominate the entry: approximated by "not dominating every return")
+                rets = [bb for bb in fi.fn.order if fi.term[bb] is not None and fi.term[bb].op == 'ret']
+                if all(b in dom[r] for r in rets):
+                    continue
+                ninst += 1
+                # conditions controlling the call: branches in dominating blocks whose two successors differ in reaching b without...
+                conds = set()
+                for d in dom[b]:
+                    t = fi.term[d]
+                    if t is not None and t.op == 'br' and t.a and d != b:
+                        conds |= set(regs_of(t.a[0]))
+                # plus branches in blocks from which b is reachable on only one side
+                for d in fi.fn.order:
+                    t = fi.term[d]
+                    if t is not None and t.op == 'br' and t.a and len(t.x) == 2:
+                        r0 = b in fi.reachable_from(t.x[0])
+                        r1 = b in fi.reachable_from(t.x[1])
+                        if r0 != r1:
+                            conds |= set(regs_of(t.a[0]))
+                sl = fi.backward_slice(list(conds)) if conds else set()
+                missing = [p for p in argparams if p not in sl]
+                tag = 'memo:%s->%s' % (short, mod.dem[c].split('(')[0])
+                if missing:
+                    rep.refute(tag, 'R-MEMO', loc(mod, ins, n),
+                               'members written by %s from argument %s are refreshed only under a guard that does not depend on %s: a later call with another value reuses stale state' % (
+                                   mod.dem[c].split('(')[0], [m[1:] for m in missing], [m[1:] for m in missing]))
+                else:
+                    rep.ok(tag, 'R-MEMO', loc(mod, ins, n), 'the guard of the refreshing call depends on %s' % sorted(p[1:] for p in argparams))
+    rep.floor('R-MEMO instances', ninst, 1)
+
+
+def rule_omp_global(rep):
+    """omp_set_num_threads / omp_set_dynamic receive only constants or write-once members (idempotent across calls)"""
+    mod = smod()
+    fields = class_fields(mod)
+    n = 0
+    for name in methods(mod):
+        fi = info(mod, name)
+        this = fi.fn.params[0][1] if fi.fn.params else None
+        for b in fi.fn.order:
+            for ins in fi.fn.blocks[b]:
+                c = callee_name(ins)
+                if c in ('omp_set_num_threads', 'omp_set_dynamic'):
+                    n += 1
+                    a = ins.a[1]
+                    ok = a[0] == 'i'
+                    src = 'a constant'
+                    if a[0] == 'r':
+                        d = fi.defs.get(a[1])
+                        if d and d[1].op == 'load':
+                            k = field_of_this(fi, d[1].a[0], this)
+                            if k is not None and fields.get(k) in ('nThreads',):
+                                ok = True
+                                src = 'member ' + fields[k]
+                    (rep.ok if ok else rep.refute)('ompglobal:%s@%s' % (c, loc(mod, ins, name)), 'R-EFFECT', loc(mod, ins, name),
+                                                   '%s receives %s' % (c, src) if ok else '%s receives a value that is neither constant nor a write-once member' % c)
+    rep.floor('omp global-state calls', n, 2)
+
+
+# ------------------------------------------------------------------------------------------------ R-SHIFT, R-ALLOC, census
+def rule_shift(rep, pat=r'^(NTT_Goldilocks::|BR\()'):
+    """an int-typed shift with a non-constant amount whose result is widened to 64 bits"""
+    mod = smod()
+    nshl = 0
+    for name in mod.find_re(pat):
+        fi = info(mod, name)
+        for b in fi.fn.order:
+            for ins in fi.fn.blocks[b]:
+                if ins.op == 'shl':
+                    nshl += 1
+                    if ins.ty == ('i', 32) and ins.a[1][0] == 'r':
+                        widened = []
+                        todo = [ins.dst]
+                        seen = set()
+                        while todo:
+                            r_ = todo.pop()
+                            if r_ in seen:
+                                continue
+                            seen.add(r_)
+                            for ub, u in fi.users(r_):
+                                if u.op in ('sext', 'zext') and u.ty == ('i', 64):
+                                    widened.append(u)
+                                elif u.op in ('add', 'sub', 'and', 'or', 'xor') and u.ty == ('i', 32):
+                                    todo.append(u.dst)
+                        if widened:
+                            rep.refute('shift:%s@%s' % (mod.dem[name].split('(')[0], loc(mod, ins, name)), 'R-SHIFT', loc(mod, ins, name),
+                                       '32-bit shift with a variable amount is widened to 64 bits: overflows (undefined behaviour) once the amount reaches 31')
+    rep.floor('shl instructions inspected', nshl, 5)
+    rep.ok('shift:census', 'R-SHIFT', 'src/ntt_goldilocks.cpp', '%d shl instructions in the transform unit, none is an int shift widened to 64 bits' % nshl)
+
+
+def origins(fi, v, depth=0, seen=None):
+    """allocation kinds / other sources a pointer value may come from"""
+    seen = seen if seen is not None else set()
+    out = set()
+    if v[0] == 'null':
+        return {'null'}
+    if v[0] != 'r':
+        return {'other'}
+    if v[1] in seen:
+        return out
+    seen.add(v[1])
+    if v[1] in fi.params:
+        return {'param:' + v[1]}
+    d = fi.defs.get(v[1])
+    if d is None:
+        return {'other'}
+    ins = d[1]
+    if ins.op == 'bitcast' or ins.op == 'getelementptr':
+        return origins(fi, ins.a[0], depth + 1, seen)
+    if ins.op == 'phi':
+        for x, l in ins.a:
+            out |= origins(fi, x, depth + 1, seen)
+        return out
+    if ins.op == 'select':
+        return origins(fi, ins.a[1], depth + 1, seen) | origins(fi, ins.a[2], depth + 1, seen)
+    if ins.op in ('call', 'invoke'):
+        c = callee_name(ins)
+        if c in ALLOC:
+            return {ALLOC[c]}
+        return {'call:' + str(c)}
+    if ins.op == 'load':
+        k = field_of_this(fi, ins.a[0], fi.fn.params[0][1] if fi.fn.params else '%this')
+        if k is not None:
+            return {'field:%d' % k}
+        return {'load'}
+    return {'other'}
+
+
+def rule_alloc(rep):
+    """R-ALLOC: every release uses the deallocator matching every allocation kind that may reach it (members and locals)"""
+    mod = smod()
+    fields = class_fields(mod)
+    names = mod.find_re(r'^NTT_Goldilocks::')
+    field_alloc = {}
+    nalloc = 0
+    for name in names:
+        fi = info(mod, name)
+        this = fi.fn.params[0][1] if fi.fn.params else None
+        for b in fi.fn.order:
+            for ins in fi.fn.blocks[b]:
+                if callee_name(ins) in ALLOC:
+                    nalloc += 1
+                if ins.op == 'store':
+                    k = field_of_this(fi, ins.a[1], this)
+                    if k is not None and ins.ty[0] == 'p':
+                        for o in origins(fi, ins.a[0]):
+                            if o in PAIR:
+                                field_alloc.setdefault(k, {})[o] = loc(mod, ins, name)
+    nrel = 0
+    for name in names:
+        fi = info(mod, name)
+        for b in fi.fn.order:
+            for ins in fi.fn.blocks[b]:
+                c = callee_name(ins)
+                if c in RELEASE:
+                    nrel += 1
+                    kinds = {}
+                    for o in origins(fi, ins.a[1]):
+                        if o in PAIR:
+                            kinds[o] = 'local allocation'
+                        elif o.startswith('field:'):
+                            k = int(o[6:])
+                            for a, site in field_alloc.get(k, {}).items():
+                                kinds[a] = 'member %s allocated at %s' % (fields.get(k, k), site)
+                    tag = 'alloc:%s@%s' % (mod.dem[name].split('(')[0], loc(mod, ins, name))
+                    bad = [(a, w) for a, w in kinds.items() if PAIR[a] != RELEASE[c]]
+                    if bad:
+                        rep.refute(tag, 'R-ALLOC', loc(mod, ins, name), 'memory obtained with %s (%s) is released with %s' % (bad[0][0], bad[0][1], RELEASE[c]))
+                    elif kinds:
+                        rep.ok(tag, 'R-ALLOC', loc(mod, ins, name), '%s matches %s' % (RELEASE[c], sorted(kinds)))
+                    else:
+                        rep.ok(tag, 'R-ALLOC', loc(mod, ins, name), '%s of a pointer without a visible allocation kind' % RELEASE[c])
+    rep.floor('allocation sites', nalloc, 6)
+    rep.floor('release sites', nrel, 6)
+
+
+def rule_abort_census(rep):
+    """sinks (assert / abort / exit / throw) reachable from the three entry points; each must be unreachable in the bounded tier"""
+    mod = smod()
+    roots = methods(mod, r'^NTT_Goldilocks::(NTT|INTT|extendPol)\(')
+    seen = set()
+    todo = list(roots)
+    sinks = []
+    while todo:
+        n = todo.pop()
+        if n in seen or n not in mod.funcs:
+            continue
+        seen.add(n)
+        if not any(k in mod.dem.get(n, '') for k in ('NTT_Goldilocks', 'Goldilocks::', 'BR(')):
+            continue
+        fn = mod.fn(n)
+        for lab, ins in fn.instrs():
+            c = callee_name(ins)
+            if c in ('__assert_fail', 'abort', 'exit', '__cxa_throw'):
+                sinks.append((mod.dem[n].split('(')[0], c, loc(mod, ins, n)))
+            elif c:
+                todo.append(c)
+    rep.floor('abort sites reachable from the transforms', len(sinks), 3)
+    rep.ok('abort-census', 'R-ABORT', 'src/ntt_goldilocks.cpp', '%d sink sites reachable: %s' % (len(sinks), sorted(set(s[2] for s in sinks))))
+    rep.cov['abort_sites'] = sorted(set('%s %s' % (s[1], s[2]) for s in sinks))
+
+
+def rule_w_chain(rep):
+    from .interp import Interp, run_global_ctors
+    from .poly import FV
+    mod = front.module('avx2')
+    I = Interp(mod, {})
+    run_global_ctors(I)
+    g = [n for n in mod._globtxt if n.startswith('@_ZN10Goldilocks1WE')]
+    reg = I.global_region(g[0])
+    W = []
+    for i in range(33):
+        v = I.mem.get((reg, 8 * i))
+        v = v[0] if v else None
+        W.append(v.nf.cval() if isinstance(v, FV) else v)
+    bad = []
+    if W[0] != 1:
+        bad.append('W[0] != 1')
+    if W[1] != P - 1:
+        bad.append('W[1] != p-1')
+    for i in range(1, 33):
+        if not isinstance(W[i], int) or W[i] >= P or W[i] * W[i] % P != W[i - 1]:
+            bad.append('W[%d]^2 != W[%d]' % (i, i - 1))
+    (rep.refute if bad else rep.ok)('w-chain', 'R-CONST', 'src/goldilocks_base_field.cpp',
+                                    '; '.join(bad[:3]) if bad else 'W[0]=1, W[1]=p-1, W[i]^2=W[i-1] for i<=32: W[i] is a primitive 2^i-th root of unity')
+    sg = [n for n in mod._globtxt if n.startswith('@_ZN10Goldilocks5SHIFTE')]
+    if sg:
+        r2 = I.global_region(sg[0])
+        v = I.mem.get((r2, 0))
+        v = v[0] if v else None
+        v = v.nf.cval() if isinstance(v, FV) else v
+        ok = v == 7 and pow(7, (P - 1) // 2, P) != 1
+        (rep.ok if ok else rep.refute)('shift-const', 'R-CONST', 'src/goldilocks_base_field.cpp', 'SHIFT = %s; 7 is a quadratic non-residue (coset disjoint from the subgroup)' % v)
+
+
+def rule_shift_const(rep):
+    rule_w_chain(rep)
+
+
+def rule_intt_null(rep):
+    """INTT forwards to NTT with inverse = true and with a destination that is src when dst is null"""
+    mod = smod()
+    names = methods(mod, r'^NTT_Goldilocks::INTT\(')
+    rep.floor('INTT definitions', len(names), 1)
+    for n in names:
+        fi = info(mod, n)
+        calls = [(b, i) for b in fi.fn.order for i in fi.fn.blocks[b] if callee_name(i) and re.match(r'^NTT_Goldilocks::NTT\(', mod.dem.get(callee_name(i), ''))]
+        if len(calls) != 1:
+            rep.incomplete('intt-forward', 'R-FORWARD', loc(mod, fi.fn.blocks[fi.fn.order[0]][0], n), 'INTT does not forward to NTT exactly once (%d calls)' % len(calls))
+            continue
+        b, ins = calls[0]
+        cal = mod.fn(callee_name(ins))
+        pn = [p for t, p in cal.params]
+        args = dict(zip(pn, ins.a[1:]))
+        probs = []
+        if args.get('%inverse') != ('i', 1):
+            probs.append('inverse flag passed to NTT is %r, not true' % (args.get('%inverse'),))
+        d = args.get('%dst')
+        org = origins(fi, d) if d else set()
+        if not ({'param:%src', 'param:%dst'} <= org):
+            probs.append('destination passed to NTT does not select between dst and src (origins %s)' % sorted(org))
+        if args.get('%src') != ('r', '%src'):
+            probs.append('source is not forwarded unchanged')
+        (rep.refute if probs else rep.ok)('intt-forward', 'R-FORWARD', loc(mod, ins, n),
+                                          '; '.join(probs) if probs else 'INTT = NTT(dst==NULL ? src : dst, src, ..., inverse=true, extend)')
+
+
+def rule_powtwoinv(rep):
+    """constructor tables of a bounded object: powTwoInv[i]*2^i = 1, roots[i] = w^i with w = W[log2 capacity]"""
+    from .nttmodel import NTTWorld
+    from .poly import FV
+    from .interp import Ptr
+    W = NTTWorld('avx2')
+    fields = class_fields(W.mod)
+    off = {}
+    for i, nm in fields.items():
+        off[nm] = ir.field_offset(W.mod, ('s', '%class.' + CLS), i)[0]
+    for cap in (1, 2, 8, 64):
+        this = W.construct(cap, 1, 1)
+        I = W.I
+        lg = cap.bit_length() - 1
+
+        def tab(nm, n):
+            p = I.mem[(this.reg, off[nm])][0]
+            out = []
+            for i in range(n):
+                v = I.mem.get((p.reg, 8 * i))
+                v = v[0] if v else None
+                out.append(v.nf.cval() if isinstance(v, FV) else v)
+            return out
+        try:
+            pti = tab('powTwoInv', lg + 1)
+            roots = tab('roots', cap)
+        except (KeyError, AttributeError) as e:
+            rep.incomplete('ctor-tables:cap=%d' % cap, 'R-CONST', 'src/ntt_goldilocks.hpp', 'object tables not found: %s' % e)
+            continue
+        w = W.W(lg)
+        bad = []
+        for i, v in enumerate(pti):
+            if not isinstance(v, int) or v * pow(2, i, P) % P != 1:
+                bad.append('powTwoInv[%d]*2^%d != 1' % (i, i))
+        for i, v in enumerate(roots):
+            if not isinstance(v, int) or v % P != pow(w, i, P):
+                bad.append('roots[%d] != w^%d' % (i, i))
+        (rep.refute if bad else rep.ok)('ctor-tables:cap=%d' % cap, 'R-CONST', 'src/ntt_goldilocks.hpp',
+                                        '; '.join(bad[:3]) if bad else 'powTwoInv[i] = 2^-i (i<=%d), roots[i] = W[%d]^i (i<%d)' % (lg, lg, cap))
+
+
+def rule_compute_r(rep):
+    """after extendPol(N) the memoised tables hold r[i] = 7^i and r_[i] = 7^i / N"""
+    from .nttmodel import NTTWorld
+    from .poly import FV
+    from .interp import Ptr, NULL
+    W = NTTWorld('avx2')
+    fields = class_fields(W.mod)
+    off = {nm: ir.field_offset(W.mod, ('s', '%class.' + CLS), i)[0] for i, nm in fields.items()}
+    for N in (1, 4, 16):
+        this = W.construct(16, 1, 1)
+        io = W.buffer('io', 16)
+        try:
+            W.I.call(W.names['ext'], [this, Ptr(io, 0), Ptr(io, 0), 16, N, 1, NULL, 3, 1])
+        except Exception as e:
+            rep.incomplete('compute-r:N=%d' % N, 'R-CONST', 'src/ntt_goldilocks.hpp', str(e)[:200])
+            continue
+        I = W.I
+        bad = []
+        ninv = pow(N, P - 2, P)
+        for nm, scale in (('r', 1), ('r_', ninv)):
+            p = I.mem[(this.reg, off[nm])][0]
+            for i in range(N):
+                v = I.mem.get((p.reg, 8 * i))
+                v = v[0] if v else None
+                v = v.nf.cval() if isinstance(v, FV) else v
+                if not isinstance(v, int) or v % P != pow(7, i, P) * scale % P:
+                    bad.append('%s[%d] != 7^%d%s' % (nm, i, i, '/N' if scale != 1 else ''))
+        key = I.mem.get((this.reg, off.get('rSize', -1)))
+        if not key or key[0] != N:
+            bad.append('the key of the memoised table is %s, not N=%d' % (key[0] if key else None, N))
+        (rep.refute if bad else rep.ok)('compute-r:N=%d' % N, 'R-CONST', 'src/ntt_goldilocks.hpp',
+                                        '; '.join(bad[:3]) if bad else 'r[i] = 7^i, r_[i] = 7^i/N for i < %d, key = N' % N)
